@@ -129,6 +129,20 @@ func (m *mrClassifier) exprCalls(e ast.Node) {
 						m.sens("calls " + core.FuncName(f) + " which writes " + w.Kind + " (last writer wins depends on order)")
 						return true
 					}
+					// a map store inside the callee: only harmless when it is keyed by THIS loop's key
+					// (distinct keys cannot collide) - the key must be handed to the call
+					keyed := false
+					if m.rs.Key != nil {
+						for _, a := range call.Args {
+							if core.ExprStr(a) == core.ExprStr(m.rs.Key) && core.ExprStr(m.rs.Key) != "_" {
+								keyed = true
+							}
+						}
+					}
+					if !keyed {
+						m.sens("calls " + core.FuncName(f) + " which stores into a map under a key that is not this loop's key: colliding keys make the last writer depend on iteration order (and a map that is ranged over while it grows visits the new entries or not at random)")
+						return true
+					}
 					m.effects++
 				}
 			}
